@@ -73,6 +73,40 @@ pub struct GuardInterval {
     pub exit: u64,
 }
 
+/// The map of the run in progress, for the retirement probe called from the scheduler's event hook.
+static RETIRE_PROBE: Mutex<Option<(usize, Vec<String>, u64)>> = Mutex::new(None);
+
+/// Called (with the seams suppressed) whenever flurry is about to retire the object at `addr`.
+pub fn retire_probe(addr: usize) {
+    let tgt_ptr = match RETIRE_PROBE.lock().unwrap().as_ref() {
+        Some((p, _, _)) => *p,
+        None => return,
+    };
+    // safety: the pointer is registered for exactly the duration of sched::run in `execute`
+    let tgt: &Tgt = unsafe { &*(tgt_ptr as *const Tgt) };
+    let reachable = match tgt {
+        Tgt::Map(m) => {
+            let g = m.guard();
+            crate::inspect::reachable_addresses(&m.verif_dump(&g))
+        }
+        Tgt::Set(s) => {
+            let g = s.guard();
+            crate::inspect::reachable_addresses(&s.verif_map().verif_dump(&g))
+        }
+    };
+    let mut pr = RETIRE_PROBE.lock().unwrap();
+    if let Some((_, errs, n)) = pr.as_mut() {
+        *n += 1;
+        if reachable.contains(&addr) && errs.len() < 4 {
+            errs.push(format!(
+                "at clock {} thread {:?} retired an object that is still reachable from the map (a reader that pins a guard after this instant can still find it, and seize no longer counts that reader)",
+                sched::now(),
+                sched::sim_id()
+            ));
+        }
+    }
+}
+
 thread_local! {
     /// verdicts of the retain callbacks of the operation in flight (survives a panicking callback)
     static CB_LOG: std::cell::RefCell<Vec<PredRec>> = const { std::cell::RefCell::new(Vec::new()) };
@@ -101,6 +135,9 @@ pub struct ExecOpts {
     /// after the quiescent checks, keep inserting fresh keys until the table has grown once more
     /// (C10: "later growth still works")
     pub post_growth: bool,
+    /// at every retirement check that the retired object is no longer reachable from the map's
+    /// roots (C03: nothing is released for reclamation while new readers can still find it)
+    pub retire_check: bool,
 }
 
 impl Default for ExecOpts {
@@ -112,6 +149,7 @@ impl Default for ExecOpts {
             lookup_cost: false,
             midrun_every: None,
             post_growth: false,
+            retire_check: false,
         }
     }
 }
@@ -158,6 +196,8 @@ pub struct RunResult {
     /// tree-bin validation errors found while the run was in progress, and how often it ran
     pub midrun_errors: Vec<String>,
     pub midrun_checks: u64,
+    pub retire_errors: Vec<String>,
+    pub retire_checks: u64,
 }
 
 pub enum Tgt {
@@ -1031,7 +1071,14 @@ pub fn execute(p: &Program, mut setup: RunSetup, opts: &ExecOpts) -> RunResult {
         }));
     }
 
+    if opts.retire_check {
+        *RETIRE_PROBE.lock().unwrap() = Some((&tgt as *const Tgt as usize, Vec::new(), 0));
+    }
     let outcome = sched::run(setup, jobs);
+    let (retire_errors, retire_checks) = match RETIRE_PROBE.lock().unwrap().take() {
+        Some((_, e, n)) => (e, n),
+        None => (Vec::new(), 0),
+    };
     let end_clock = outcome.clock;
 
     let mut history = Vec::new();
@@ -1072,6 +1119,8 @@ pub fn execute(p: &Program, mut setup: RunSetup, opts: &ExecOpts) -> RunResult {
             initial_table_len,
             midrun_errors: Vec::new(),
             midrun_checks: 0,
+            retire_errors,
+            retire_checks,
         };
     }
 
@@ -1110,5 +1159,7 @@ pub fn execute(p: &Program, mut setup: RunSetup, opts: &ExecOpts) -> RunResult {
         initial_table_len,
         midrun_errors: mr.0,
         midrun_checks: mr.1,
+        retire_errors,
+        retire_checks,
     }
 }
